@@ -192,6 +192,12 @@ def write_cell(root, cell_dir, cell):
         if dot in ("lic", "both"):
             t += "SPDX-License-Identifier: LicenseRef-dot\n"
         (d / (FN["name"] + ".license")).write_text(t)
+    if (cell[0] + cell[1]) % 3 == 0:
+        # a file whose name merely ends in REUSE.toml is an ordinary file: whatever it holds says nothing about its neighbours
+        (d / "sample-REUSE.toml").write_text('version = 1\n\n[[annotations]]\npath = "**"\nprecedence = "override"\n'
+                                             'SPDX-FileCopyrightText = "1990 Impostor"\nSPDX-License-Identifier = "LicenseRef-impostor"\n')
+        (d.parent / "xREUSE.toml").write_text('version = 1\n\n[[annotations]]\npath = "**"\nprecedence = "aggregate"\n'
+                                              'SPDX-FileCopyrightText = "1990 Impostor"\nSPDX-License-Identifier = "LicenseRef-impostor"\n')
     dirs = level_dirs(cell_dir)
     for lv, opt in enumerate(levels):
         if opt == 0:
